@@ -666,4 +666,53 @@ theorem eval_readset_plain {env env' : Env} (hS : env.Steady) (hS' : env'.Steady
   obtain ⟨h1, h2, h3⟩ := eval_readset hS hS' hL f p s t ds rs rt hs ht hh hag
   exact ⟨h2, h3, (hitRun_frame env f p s ds rs hs hh).2.2, (hitRun_frame env' f p t ds rt ht h1).2.2⟩
 
+/-! ## Why "hit-only" has to mean "no miss", not just "nothing inserted"
+
+With "the run inserted nothing" (`(eval env f s p).1.map = s.map`) in place of `hitRun`, and `Plain`
+required of the loader `p` only, read-set determinacy is **false**: a `.load` of an asset that is not
+cached evaluates that asset's loader — any program of the type table — and when it fails nothing is
+inserted, but its error (which `p` may return) can depend on reads it made under `no_record`. -/
+
+namespace ReadSetCounterexample
+
+/-- the nested loader: fails either way; which error depends on an unrecorded read of `y.s` -/
+def nested : Prog :=
+  .noRecord (.read "y" "s" fun r =>
+    match r with
+    | .ok _ => .fail (.custom "a")
+    | .error _ => .fail (.custom "b")) Prog.ret'
+
+/-- the plain loader: load `x`, return what that gives -/
+def parent : Prog := .load ⟨1, "x"⟩ Prog.ret'
+
+def cenv (y : Bool) : Env :=
+  { read := fun _ _ _ => if y then .ok [] else .error ⟨true, "NotFound", "y"⟩
+    readDir := fun _ _ => .ok []
+    types := fun ty => { hot := true, prog := fun _ => if ty = 1 then nested else parent }
+    hasReloader := true }
+
+def s0 : St := { recs := [some []] }
+
+theorem parent_plain : parent.Plain :=
+  Prog.Plain.load _ _ (fun r => by cases r <;> constructor)
+
+/-- `parent` is plain, the environments are steady, all-hot and run the same loaders, the run
+under `cenv true` inserts nothing and records only `.asset x`, on which the two sides agree (absent
+in both) — and the outcomes differ. -/
+theorem readset_false_with_map_unchanged :
+    parent.Plain ∧ (cenv true).Hot ∧ (cenv true).Steady ∧ (cenv false).Steady ∧ SameLoaders (cenv true) (cenv false) ∧
+    (eval (cenv true) 10 s0 parent).1.map = s0.map ∧
+    (∀ d ∈ (eval (cenv true) 10 s0 parent).1.top, AgreeOn (cenv true) (cenv false) s0 s0 d) ∧
+    (eval (cenv false) 10 s0 parent).2 ≠ (eval (cenv true) 10 s0 parent).2 ∧
+    hitRun (cenv true) 10 s0 parent = false := by
+  refine ⟨parent_plain, ⟨rfl, fun _ => rfl⟩, ⟨fun _ _ _ _ => rfl, fun _ _ _ => rfl, fun _ _ => rfl⟩,
+    ⟨fun _ _ _ _ => rfl, fun _ _ _ => rfl, fun _ _ => rfl⟩, ⟨rfl, rfl, fun _ _ => rfl⟩, by decide, ?_, by decide, by decide⟩
+  intro d hd
+  have htop : (eval (cenv true) 10 s0 parent).1.top = [Dep.asset ⟨1, "x"⟩] := by decide
+  rw [htop] at hd
+  rw [List.mem_singleton.mp hd]
+  rfl
+
+end ReadSetCounterexample
+
 end AmVerif.Model
